@@ -10,10 +10,11 @@ RULE = ("FaceVec records = real Grid.diff/interp of one component along its own 
         "other_component, on decompositions whose faces are rotated (all junctions non-reversed), left- or "
         "right-staggered components, extra dims, every rule on open edges; expectation = the value the neighbouring "
         "face stores for the shared edge, found by TLC from the orientations; VecPlain records = {axis: u} vs u on "
-        "grids without face connections; non-trivial = distinct (decomposition, component, op, staggering)")
+        "grids without face connections; Vec2D records = real diff_2d_vector / interp_2d_vector calls, both entries "
+        "validated as the one-component calls they stand for; non-trivial = distinct (decomposition, component, op, staggering)")
 
 
-def gen_vec(rng, cid, nmax=3):
+def gen_vec(rng, cid, nmax=3, two=False):
     while True:
         N = rng.randint(2, nmax)
         K, per, orient, entries = faces.random_expressible(rng, rotations_only=True)
@@ -34,6 +35,15 @@ def gen_vec(rng, cid, nmax=3):
         u, v = gen.rand_data(rng, du, -9, 9), gen.rand_data(rng, dv, -9, 9)
         comp = rng.choice(axnames)
         data, other = (u, v) if comp == "a1" else (v, u)
+        if two:
+            comp = rng.choice(axnames)
+            data, other = (u, v) if comp == "a1" else (v, u)
+            return {"id": cid, "ev": "Vec2D", "op": rng.choice(["diff", "interp"]), "grid": g,
+                    "decomp": {"K": list(K), "per": list(per), "orient": [list(o) for o in orient]},
+                    "args": {"data": data, "other": other, "axis": [comp], "axisb": ["a2" if comp == "a1" else "a1"],
+                             "to": rng.choice([NONE, S("center")]),
+                             "boundary": gen.rand_tagged(rng, axnames, gen.RULES, partial=True),
+                             "fill_value": gen.rand_tagged(rng, axnames, [-3, 0, 2, 7], partial=True)}}
         return {"id": cid, "ev": "FaceVec", "op": rng.choice(["diff", "interp"]), "grid": g,
                 "decomp": {"K": list(K), "per": list(per), "orient": [list(o) for o in orient]},
                 "args": {"data": data, "other": other, "axis": [comp], "to": rng.choice([NONE, S("center")]),
@@ -66,6 +76,18 @@ def execute(case):
             res = getattr(grid, case["op"])({nm(a["axis"][0]): da}, nm(a["axis"][0]),
                                             other_component={nm(other_ax): oth}, **kw)
             rec["out"] = model.encode_result(res, scale, nm)
+        elif case["ev"] == "Vec2D":
+            import warnings
+
+            oth = model.make_array(a["other"], nm, ds, name="v2")
+            with warnings.catch_warnings():
+                warnings.simplefilter("ignore")
+                res = getattr(grid, case["op"] + "_2d_vector")({nm(a["axis"][0]): da, nm(a["axisb"][0]): oth}, **kw)
+            inv = nm.inv()
+            rec["keys"] = [inv.get(k, str(k)) for k in res]
+            vals = list(res.values())
+            rec["out"] = model.encode_result(vals[0], scale, nm)
+            rec["outb"] = model.encode_result(vals[1], scale, nm)
         else:
             plain = getattr(grid, case["op"])(da, nm(a["axis"][0]), **kw)
             rec["out2"] = model.encode_result(plain, scale, nm)
@@ -78,6 +100,8 @@ def execute(case):
     except Exception as ex:
         rec["out"] = model.encode_error(ex)
         rec.setdefault("out2", rec["out"])
+        rec.setdefault("outb", rec["out"])
+        rec.setdefault("keys", [])
     return rec
 
 
@@ -100,6 +124,8 @@ def run(ctx):
     n = 8000 if thorough else 400
     cases = [gen_vec(rng, k + 1) for k in range(n)]
     cases += [gen_plain(rng, n + 1 + k) for k in range(2000 if thorough else 150)]
+    n2 = len(cases)
+    cases += [gen_vec(rng, n2 + 1 + k, two=True) for k in range(2000 if thorough else 120)]
     recs = ctx.pmap(execute, cases, chunksize=4)
     bad = ctx.validate("C03Trace", recs, jvms=16 if thorough else 8, chunk=250)
     # the scalar-form result of VecPlain records is itself bound to the geometric definition by C01's trace spec
@@ -120,6 +146,7 @@ def run(ctx):
     r = recs[0]
     ctx.sample({"decomp": r["decomp"], "table": r["grid"]["faces"]["table"], "op": r["op"], "component": r["args"]["axis"],
                 "data_dims": r["args"]["data"]["dims"], "other_dims": r["args"]["other"]["dims"], "out_flat": r["out"].get("flat")})
+    ctx.extra["records_by_event"] = {e: sum(1 for x in recs if x["ev"] == e) for e in ("FaceVec", "VecPlain", "Vec2D")}
     ctx.assumptions += ["small integer data", "rotations only: every junction is a non-reversed link, as the property states"]
 
 
@@ -127,7 +154,7 @@ def replay(ctx, rp):
     from ..core import setup_import_path
 
     setup_import_path()
-    recs = [execute({k: v for k, v in c.items() if k not in ("out", "out2")}) for c in rp["cases"]]
+    recs = [execute({k: v for k, v in c.items() if k not in ("out", "out2", "outb", "keys")}) for c in rp["cases"]]
     bad = ctx.validate("C03Trace", recs)
     for r in recs:
         if r["id"] in bad:
